@@ -143,7 +143,7 @@ def run(O, P):
     O.coverage["partial_operations_inventoried"] = len(cur)
     O.coverage["partial_operation_obligations_open"] = len(reopened)
     # 2. search
-    n = 250 if O.tier == "quick" else 4000
+    n = 250 if O.tier == "quick" else 12000
     import jsgen, catalogue
     cases = []
     for c in F.snippet_cases(opts={"ast": False}):
